@@ -41,6 +41,9 @@ pub enum PlanKind {
     NaturalCrossFs,
     /// nothing injected: tmpfs -> tmpfs (no FIEMAP)
     NaturalTmpfs,
+    /// the first copy_file_range call is cut short and the second one fails (EIO/ENOSPC): an error after partial
+    /// progress must not turn into "done"
+    ShortThenError(i32, ClampHow),
 }
 
 #[derive(Clone, Debug, Serialize, Deserialize)]
@@ -66,6 +69,7 @@ pub fn strategy() -> BoxedStrategy<Case> {
         2 => prop_oneof![Just(libc::EOPNOTSUPP), Just(libc::EINVAL), Just(libc::EXDEV)].prop_map(PlanKind::CloneUnsupported),
         2 => Just(PlanKind::FiemapUnsupported),
         1 => (0u8..4).prop_map(PlanKind::ReadEintr),
+        2 => (prop_oneof![Just(libc::EIO), Just(libc::ENOSPC)], clamp_how()).prop_map(|(e, h)| PlanKind::ShortThenError(e, h)),
         1 => Just(PlanKind::NaturalCrossFs),
         1 => Just(PlanKind::NaturalTmpfs),
     ];
@@ -138,6 +142,11 @@ pub fn rules_for(c: &Case) -> Vec<Rule> {
             Rule { sys: vec![Sys::Read], path: sb, nth: Nth::Kth(*k as usize), action: Action::Errno(libc::EINTR) },
         ],
         PlanKind::NaturalCrossFs | PlanKind::NaturalTmpfs => vec![],
+        PlanKind::ShortThenError(e, h) => vec![
+            Rule { sys: vec![Sys::CopyFileRange], path: sb.clone(), nth: Nth::Kth(0), action: clamp_action(*h, c.seed) },
+            // (a rule only counts the calls that reach it: the call after the clamped one is this rule's first)
+            Rule { sys: vec![Sys::CopyFileRange], path: sb, nth: Nth::Kth(0), action: Action::Errno(*e) },
+        ],
     }
 }
 
@@ -150,6 +159,7 @@ pub fn plan_name(p: &PlanKind) -> String {
         PlanKind::ReadEintr(_) => "read-eintr".into(),
         PlanKind::NaturalCrossFs => "natural-ext4-to-tmpfs".into(),
         PlanKind::NaturalTmpfs => "natural-tmpfs".into(),
+        PlanKind::ShortThenError(e, h) => format!("short-then-errno{}/{}", e, how_name(*h)),
     }
 }
 fn how_name(h: ClampHow) -> &'static str {
@@ -411,7 +421,7 @@ impl Check for C05 {
         "fault_enumeration"
     }
     fn rule(&self) -> String {
-        "C01's generated file cases (bounded to <=300 blocks, <=3 files) x a generated fault plan applied by the ptrace supervisor to the real xcp: legal short counts (1 byte, n bytes, random, requested-1) on copy_file_range with probability 5%/50%/100%; copy_file_range failing with ENOSYS/EXDEV/EPERM from the first or k-th call, with the userspace fallback's read/write/pread/pwrite additionally clamped; FICLONE answered EOPNOTSUPP/EINVAL/EXDEV; FIEMAP answered EOPNOTSUPP; read() EINTR; plus natural ext4->tmpfs and tmpfs->tmpfs runs. Oracle: exit 0 => destination byte-identical. Non-trivial: at least one call actually clamped/failed (or the natural facility really missing) and exit 0; distinct by case hash. The libfs build without the Linux backend is covered by the 'fallback' sub-check (in-process probe).".into()
+        "C01's generated file cases (bounded to <=300 blocks, <=3 files) x a generated fault plan applied by the ptrace supervisor to the real xcp: legal short counts (1 byte, n bytes, random, requested-1) on copy_file_range with probability 5%/50%/100%; copy_file_range failing with ENOSYS/EXDEV/EPERM from the first or k-th call, with the userspace fallback's read/write/pread/pwrite additionally clamped; FICLONE answered EOPNOTSUPP/EINVAL/EXDEV; FIEMAP answered EOPNOTSUPP; read() EINTR; the first copy_file_range call cut short and the next one failing with EIO/ENOSPC (an error after partial progress must not become success); plus natural ext4->tmpfs and tmpfs->tmpfs runs. Oracle: exit 0 => destination byte-identical. Non-trivial: at least one call actually clamped/failed (or the natural facility really missing) and exit 0; distinct by case hash. The libfs build without the Linux backend is covered by the 'fallback' sub-check (in-process probe).".into()
     }
     fn assumptions(&self) -> Vec<String> {
         vec!["short counts are produced by lowering the length register at syscall entry, so the kernel really transfers n bytes (a legal short return); errnos are injected by cancelling the call".into()]
@@ -446,6 +456,6 @@ impl Check for C05 {
         }
     }
     fn required_classes(&self, _tier: Tier) -> Vec<String> {
-        ["clamp-cfr/", "cfr-errno38", "cfr-errno18", "cfr-errno1/", "ficlone-errno", "fiemap-eopnotsupp", "read-eintr", "natural-ext4-to-tmpfs", "natural-tmpfs", "|parblock|", "|parfile|", "sparse", "fallback|copy_file", "fallback|bytes", "fallback|offsets", "fallback|sparse", "clamp1000"].iter().map(|s| s.to_string()).collect()
+        ["clamp-cfr/", "cfr-errno38", "cfr-errno18", "cfr-errno1/", "ficlone-errno", "fiemap-eopnotsupp", "read-eintr", "natural-ext4-to-tmpfs", "natural-tmpfs", "|parblock|", "|parfile|", "sparse", "fallback|copy_file", "fallback|bytes", "fallback|offsets", "fallback|sparse", "clamp1000", "short-then-errno5", "short-then-errno28"].iter().map(|s| s.to_string()).collect()
     }
 }
